@@ -6,6 +6,7 @@ Unfolding lemmas for the mutually recursive `start` / `invoke` / `tryRestart`, c
 functions to facts about the non-recursive primitives.
 -/
 namespace HW.Proc
+namespace Shape
 
 /-- the middle of `start`: replay of the buffer. -/
 def startMid (f : Nat) (s : PSt) : PSt × Option Pv :=
@@ -382,7 +383,7 @@ structure Inv (I : PSt → Prop) : Prop where
     I (emit { s with restarts := s.restarts + 1 } (.ev (.restarted (s.restarts + 1))))
 
 theorem Inv.fin {I : PSt → Prop} (H : Inv I) (s : PSt) (h : I s) : I (fin s) := by
-  unfold HW.Proc.fin; split
+  unfold HW.Proc.Shape.fin; split
   · exact h
   · exact H.inboxStart s h
 
@@ -429,4 +430,5 @@ theorem Inv.runHistory {I : PSt → Prop} (H : Inv I)
     I (runHistory max mw script batches).1 :=
   H.triple.runHistory max mw script batches hinit (fun _ h _ => h)
 
+end Shape
 end HW.Proc
